@@ -18,9 +18,9 @@ except ImportError:      # imported with tools/props on sys.path
 
 PROP = "C19"
 LEVEL = "proof"
-GEN_UNITS = ["GenUtils", "GenUtils2", "GenUtils3"]
-COQ_TARGETS = ["Props/C19.vo", "Model/Harness.vo"]
-THEOREM_FILES = ["Props/C19.v"]
+GEN_UNITS = ["GenUtils", "GenUtils2", "GenUtils3", "GenUtils3b"]
+COQ_TARGETS = ["Props/C19.vo", "Model/Harness.vo", "Props/W3C19.vo", "Props/W3C19b.vo"]
+THEOREM_FILES = ["Props/C19.v", "Props/W3C19.v", "Props/W3C19b.v"]
 COQ_IMPORTS = ("From Coq Require Import List ZArith Bool.\n"
                "From PV Require Import Np.NpZ Np.NpZ2 Gen.GenUtils Gen.GenUtils2 Model.C19Guards.\nLocal Open Scope Z_scope.\n")
 RULE = ("malformed stream: per operation and per precondition, descriptors violating exactly that precondition over a pool of "
